@@ -179,6 +179,7 @@ def _verify_replay(prop, path):
 
 
 def replay(prop, path):
+    path = core._abs_dir(path)
     core.bootstrap()
     m = machine_for(prop)
     with open(path) as f:
